@@ -327,9 +327,104 @@ var chkSerial = harness.Define("bad-crc-reply-serial-batch",
 		return out
 	})
 
+// agedCRCCase: the same on an RTU network client that has been in use for a long time: one Client value makes N exchanges; most are
+// answered with valid replies (and must succeed), the others with one of the bad-CRC replies below, judged like any other case. The
+// bad replies come every Every-th exchange and, additionally, in the two exchanges before and after every multiple of 256 (where
+// 8- and 16-bit exchange counters wrap).
+type agedCRCCase struct {
+	N     int       `json:"n"`
+	Every int       `json:"every"`
+	Seed  uint64    `json:"seed"`
+	Bad   []crcCase `json:"bad"`
+	// DeviceExceptions: a ninth of the ordinary exchanges end with a genuine (CRC-valid) device exception
+	DeviceExceptions bool `json:"device_exceptions,omitempty"`
+}
+
+func runAgedCRC(c agedCRCCase) harness.Result {
+	if len(c.Bad) == 0 || c.Every < 2 {
+		return harness.Result{}
+	}
+	sess, err := cli.NewSession(cli.RTUNet, 300, false)
+	if err != nil {
+		return harness.Fail("harness: %v", err)
+	}
+	defer sess.Close()
+	dev := device.New(c.Seed)
+	s := c.Seed
+	probes := 0
+	for i := 0; i < c.N; i++ {
+		where := fmt.Sprintf("exchange #%d on one long-lived RTU network client", i+1)
+		m := (i + 1) % 256
+		if i%c.Every == c.Every-1 || m <= 2 || m >= 254 {
+			bc := c.Bad[probes%len(c.Bad)]
+			probes++
+			bc.Kind = cli.RTUNet
+			reply, err := validReply(bc)
+			if err != nil {
+				return harness.Fail("harness: %v", err)
+			}
+			stream := corrupt(reply, bc.Corr)
+			if len(stream) == 0 || crcOK(stream) || bytes.Equal(stream, reply) {
+				continue
+			}
+			var ev []xport.Event
+			for _, n := range gen.ChunksFromCuts(len(stream), bc.Cuts) {
+				ev = append(ev, xport.Event{Kind: "data", N: n})
+			}
+			ev = append(ev, xport.Event{Kind: "eof", N: 0}) // the peer closes after the bad reply: no exchange waits for a timeout
+			if r := judge(bc, stream, reply, sess.Call(bc.Req, stream, ev)); r.Err != nil {
+				return harness.Fail("%s: %v; this exchange: %+v", where, r.Err, bc)
+			}
+			continue
+		}
+		v := harness.SplitMix64(&s)
+		r := spec.Req{FC: 3, Unit: uint8(v >> 8), Addr: uint16(v>>32) & 0x7FFF, Qty: 1 + uint16((v>>48)%7)}
+		exc := c.DeviceExceptions && v%9 == 0
+		d := dev
+		if exc {
+			d = device.New(c.Seed)
+			d.ForceException = 1 + uint8(v>>4)%4
+		}
+		frame := d.Answer(spec.RTU, spec.EncodeRequest(spec.RTU, r))
+		o := sess.Call(r, frame, []xport.Event{{Kind: "data", N: len(frame)}, {Kind: "ioerr"}})
+		if o.Panic != nil || o.Hung {
+			return harness.Fail("%s: ordinary exchange: panic=%v hung=%v", where, o.Panic, o.Hung)
+		}
+		if exc {
+			var er *packet.ErrorResponseRTU
+			if !errors.As(o.Err, &er) {
+				return harness.Fail("%s: device exception %x: got response %v, error %v", where, frame, o.Resp, o.Err)
+			}
+		} else if o.Err != nil || cat.IsNilValue(o.Resp) || !bytes.Equal(o.Resp.Bytes(), frame) {
+			return harness.Fail("%s: valid reply %x in one read: err=%v", where, frame, o.Err)
+		}
+	}
+	return harness.Result{NonTrivial: probes >= 10, Labels: []string{fmt.Sprintf("exchanges-on-one-client:%d", c.N)}, Weight: int64(probes)}
+}
+
+var chkAgedCRC = harness.Define("bad-crc-reply-long-lived-client",
+	func(t *rapid.T) agedCRCCase {
+		c := agedCRCCase{N: rapid.SampledFrom([]int{600, 2600, 9000}).Draw(t, "n"), Every: rapid.SampledFrom([]int{3, 5, 7, 11}).Draw(t, "every"), Seed: rapid.Uint64().Draw(t, "seed")}
+		k := rapid.IntRange(2, 12).Draw(t, "nbad")
+		for len(c.Bad) < k {
+			bc := genCRC(t, []string{cli.RTUNet})
+			bc.Prior, bc.PriorShape, bc.PauseMs, bc.Address, bc.EOF = "", "", 0, "", 0
+			if len(c.Bad) == 0 {
+				// always among them: a five-byte exception reply with one bit of its code or CRC flipped
+				bc.ExcCode = rapid.SampledFrom([]uint8{1, 2, 3, 4, 6}).Draw(t, "exc_code0")
+				bc.Corr = corruption{Kind: "flip", Pos: rapid.IntRange(2, 4).Draw(t, "flip_pos0"), Bit: rapid.IntRange(0, 7).Draw(t, "flip_bit0")}
+				bc.Cuts = nil
+			}
+			c.Bad = append(c.Bad, bc)
+		}
+		c.DeviceExceptions = rapid.Bool().Draw(t, "device_exceptions")
+		return c
+	}, runAgedCRC)
+
 func TestRandom(t *testing.T) {
 	chkCRC.Rapid(t, harness.Pick(1500, 30000))
 	chkSerial.Rapid(t, harness.Pick(4, 60))
+	chkAgedCRC.Rapid(t, harness.Pick(6, 60))
 }
 
 // TestBitFlipSweep: every single-bit flip x {whole, every single cut} for one reply shape per function + exception replies (network RTU client).
